@@ -11,7 +11,6 @@ pub fn fits_body(base: Base, depth: usize, v: FieldValue) {
     let t = tyshape::mk_type(tyshape::base_name(base), depth, &nulls);
     let got = t.is_valid_value(&v);
     let exp = tyshape::ref_fits(base, depth, &nulls, &v);
-    kani::cover!(true, "witness: end of harness reached");
     kani::cover!(exp, "witness: value fits type");
     kani::cover!(!exp, "witness: value does not fit type");
     std::mem::forget(v);
@@ -19,14 +18,20 @@ pub fn fits_body(base: Base, depth: usize, v: FieldValue) {
     assert!(got == exp, "is_valid_value decides exactly 'value fits type'");
 }
 
-macro_rules! fits {
-    ($name:ident, $unw:expr, $base:ident, $depth:expr, $v:tt) => {
-        #[kani::proof]
-        #[kani::unwind($unw)]
-        pub fn $name() {
-            fits_body(Base::$base, $depth, mkv!($v));
-        }
-    };
+/// The same decision through `validate_argument_type`, the function argument validation
+/// calls for every supplied variable.
+pub fn validate_body(base: Base, depth: usize, v: FieldValue) {
+    let nulls = tyshape::any_nulls();
+    let t = tyshape::mk_type(tyshape::base_name(base), depth, &nulls);
+    let res = trustfall_core::interpreter::verif_validate_argument_type("v", &t, &v);
+    let got = res.is_ok();
+    std::mem::forget(res); // the error owns a copy of the value: its drop glue is recursive
+    let exp = tyshape::ref_fits(base, depth, &nulls, &v);
+    kani::cover!(exp, "witness: argument accepted");
+    kani::cover!(!exp, "witness: argument refused");
+    std::mem::forget(v);
+    std::mem::forget(t);
+    assert!(got == exp, "an argument is accepted iff its value fits the variable's type");
 }
 
 include!("gen_c12.rs");
